@@ -66,7 +66,19 @@ def extract_extra():
 
 
 # ----------------------------------------------------------------------------
-IPS = {1: "10.0.0.1", 2: "10.0.0.2", 3: "2001:db8::3", 4: "unknown", 5: "10.0.0.5", 6: "10.0.0.6"}
+# peer address TEXTS used as the limiter's key, chosen per case (`ipset`): the kernel reports one text per peer, but not
+# always the canonical one (an IPv4 client on a dual-stack listener is "::ffff:a.b.c.d"; zone ids; other spellings)
+IPSETS = [
+    {1: "10.0.0.1", 2: "10.0.0.2", 3: "2001:db8::3", 4: "unknown", 5: "10.0.0.5", 6: "10.0.0.6"},
+    {1: "::ffff:10.0.0.1", 2: "::ffff:192.0.2.7", 3: "::ffff:a00:3", 4: "::FFFF:10.0.0.4"},
+    {1: "2001:DB8:0:0:0:0:0:1", 2: "2001:0db8:0000:0000:0000:0000:0000:0002", 3: "fe80::3%eth0", 4: "0:0:0:0:0:0:0:1"},
+]
+IPS = IPSETS[0]
+
+
+def ip_text(case, idx):
+    return IPSETS[case.get("ipset", 0) % len(IPSETS)].get(idx, f"10.9.9.{idx}")
+
 URLS = ["gemini://h/", "gemini://h/a", "gemini://other/b?q", "titan://h/up;size=3"]
 FPS = [None, "ab" * 32, None]
 
@@ -106,8 +118,59 @@ def rat(num, den=1):
 
 
 def is_44(line, retry) -> bool:
+    import re
+
     return isinstance(line, str) and line.startswith("44 ") and line.endswith("\r\n") and "\r" not in line[:-2] and "\n" not in line[:-2] \
-        and str(retry) in line[3:]
+        and str(retry) in re.findall(r"-?\d+", line[3:])   # the configured hint as a whole number, not as a substring
+
+
+def limiter_oracle(case, obs):
+    """the property statement on an observation {dec, lines[, solo]} of the history case["evs"] under the CONFIGURED
+    capacity / refill rate / retry hint of `case`"""
+    cap, rate, retry = case["cap"], F(*case["rate"]), case["retry"]
+    dec = obs["dec"]
+    if len(dec) != len(case["evs"]):
+        return ("shape", f"{len(dec)} decisions for {len(case['evs'])} requests")
+    per: dict = {}
+    for (ip, t8), d in zip(case["evs"], dec):
+        per.setdefault(ip, []).append((F(t8, 8), d == "1"))
+    for ip, hist in per.items():
+        # sliding window over the admitted list: max over i<=j of (j-i+1) - rate*(t_j-t_i) <= cap
+        best = None  # min over admitted i of (i - rate*t_i)
+        first_of_best = None
+        k = 0
+        for t, ok in hist:
+            if not ok:
+                continue
+            v = k - rate * t
+            if best is None or v < best:
+                best, first_of_best = v, (k, t)
+            if (k - rate * t) - best + 1 > cap:
+                i0, t_i = first_of_best
+                return ("window", f"address {ip}: {k - i0 + 1} requests admitted between t={float(t_i)} and t={float(t)} s; capacity {cap} + rate {rate} x {float(t - t_i)} s allows {float(cap + rate * (t - t_i))}")
+            k += 1
+        # allowance accounting without clean-up
+        allowance, last = None, None
+        for n, (t, ok) in enumerate(hist):
+            allowance = F(cap) if allowance is None else min(F(cap), allowance + (t - last) * rate)
+            last = t
+            if ok and allowance < 1:
+                return ("admit-exhausted", f"address {ip}: request #{n} at t={float(t)} s admitted with allowance {float(allowance)} < 1 (capacity {cap}, rate {rate}/s)")
+            if not ok and allowance >= 1:
+                return ("refuse-with-allowance", f"address {ip}: request #{n} at t={float(t)} s refused although its allowance is {float(allowance)} >= 1 (capacity {cap}, rate {rate}/s)")
+            if ok:
+                allowance -= 1
+    if "solo" in obs:
+        a, d2 = obs["solo"]
+        mine = "".join(d for (ip, _), d in zip(case["evs"], dec) if ip == a)
+        if mine != d2:
+            return ("interference", f"address {a}: decisions {mine} within the full history but {d2} when its own requests are replayed alone")
+    for l in obs["lines"]:
+        if not is_44(l, retry):
+            return ("bad-44-line", f"refusal/admission response {l!r} (retry_after={retry})")
+    if "0" in dec and not obs["lines"]:
+        return ("bad-44-line", "a refusal carried no response line")
+    return None
 
 
 class _Limiter(Family):
@@ -130,7 +193,7 @@ class _Limiter(Family):
         rate = case["rate"][0] / case["rate"][1]
         sub = dict(case)
         sub["evs"] = evs
-        batches = [(t8, [(IPS.get(evs[k][0], f"10.9.9.{evs[k][0]}"), URLS[k % len(URLS)], FPS[k % len(FPS)]) for k in idxs]) for t8, idxs in batches_of(sub)]
+        batches = [(t8, [(ip_text(case, evs[k][0]), URLS[k % len(URLS)], FPS[k % len(FPS)]) for k in idxs]) for t8, idxs in batches_of(sub)]
         with self.clock.patched_time(lambda: loop.vt):
             return loop.run_until_complete(self.clock.run_history(loop, case["cap"], rate, case["retry"], case.get("t0", 0), batches,
                                                                   bool(case.get("tie")), start_cleanup=cleanup))
@@ -167,50 +230,11 @@ class _Limiter(Family):
 
     # -- direct oracle ------------------------------------------------------------------------
     def oracle(self, case, obs):
-        cap, rate, retry = case["cap"], F(*case["rate"]), case["retry"]
-        dec = obs["dec"]
-        if len(dec) != len(case["evs"]):
-            return ("shape", f"{len(dec)} decisions for {len(case['evs'])} requests")
-        per: dict = {}
-        for (ip, t8), d in zip(case["evs"], dec):
-            per.setdefault(ip, []).append((F(t8, 8), d == "1"))
-        for ip, hist in per.items():
-            # sliding window over the admitted list: max over i<=j of (j-i+1) - rate*(t_j-t_i) <= cap
-            best = None  # min over admitted i of (i - rate*t_i)
-            first_of_best = None
-            k = 0
-            for t, ok in hist:
-                if not ok:
-                    continue
-                v = k - rate * t
-                if best is None or v < best:
-                    best, first_of_best = v, (k, t)
-                if (k - rate * t) - best + 1 > cap:
-                    i0, t_i = first_of_best
-                    return ("window", f"address {ip}: {k - i0 + 1} requests admitted between t={float(t_i)} and t={float(t)} s; capacity {cap} + rate {rate} x {float(t - t_i)} s allows {float(cap + rate * (t - t_i))}")
-                k += 1
-            # allowance accounting without clean-up
-            allowance, last = None, None
-            for n, (t, ok) in enumerate(hist):
-                allowance = F(cap) if allowance is None else min(F(cap), allowance + (t - last) * rate)
-                last = t
-                if ok and allowance < 1:
-                    return ("admit-exhausted", f"address {ip}: request #{n} at t={float(t)} s admitted with allowance {float(allowance)} < 1 (capacity {cap}, rate {rate}/s)")
-                if not ok and allowance >= 1:
-                    return ("refuse-with-allowance", f"address {ip}: request #{n} at t={float(t)} s refused although its allowance is {float(allowance)} >= 1 (capacity {cap}, rate {rate}/s)")
-                if ok:
-                    allowance -= 1
-        if "solo" in obs:
-            a, d2 = obs["solo"]
-            mine = "".join(d for (ip, _), d in zip(case["evs"], dec) if ip == a)
-            if mine != d2:
-                return ("interference", f"address {a}: decisions {mine} within the full history but {d2} when its own requests are replayed alone")
-        for l in obs["lines"]:
-            if not is_44(l, retry):
-                return ("bad-44-line", f"refusal/admission response {l!r} (retry_after={retry})")
-        if "0" in dec and not obs["lines"]:
-            return ("bad-44-line", "a refusal carried no response line")
-        return None
+        v = limiter_oracle(case, obs)
+        if v and case.get("ipset"):
+            texts = IPSETS[case["ipset"] % len(IPSETS)]
+            return (v[0], v[1] + f" [peer address texts: {', '.join(f'{k}={t!r}' for k, t in texts.items())}]")
+        return v
 
     def key(self, case, obs):
         cap, rate = case["cap"], F(*case["rate"])
@@ -248,7 +272,7 @@ class Small(_Limiter):
                     for g in gaps:
                         t += g
                         evs.append([1, t])
-                    yield {"cap": cap, "rate": [1, 2], "retry": 30, "evs": evs}
+                    yield {"cap": cap, "rate": [1, 2], "retry": 30, "evs": evs, "ipset": (len(evs) + t // 8) % len(IPSETS)}
             for ln in range(2, l2 + 1):
                 for gaps in itertools.product(self.GAPS, repeat=ln):
                     for who in itertools.product((1, 2), repeat=ln):
@@ -258,7 +282,7 @@ class Small(_Limiter):
                         for g, a in zip(gaps, who):
                             t += g
                             evs.append([a, t])
-                        yield {"cap": cap, "rate": [1, 2], "retry": 30, "evs": evs, "gather": (ln + t) % 2 == 0}
+                        yield {"cap": cap, "rate": [1, 2], "retry": 30, "evs": evs, "gather": (ln + t) % 2 == 0, "ipset": (ln + t // 8) % len(IPSETS)}
 
 
 RATES = [(1, 1024), (1, 256), (1, 128), (1, 16), (1, 8), (1, 4), (1, 2), (1, 1), (2, 1), (4, 1), (3, 8), (5, 2)]
@@ -333,14 +357,17 @@ class History(_Limiter):
             if rng.random() < 0.05:
                 case["cleanup"] = False
             case["solo"] = rng.randint(0, 3)
+            case["ipset"] = rng.randrange(len(IPSETS))
             yield case
 
 
 # ----------------------------------------------------------------------------
 class Wiring(Family):
     """[rate_limit] of a TOML file -> `nauyaca serve --config` -> chain and protocol: the limiter in the chain has the
-    written capacity / refill_rate / retry_after, its clean-up task is started, and a burst from two addresses at one
-    (frozen) instant is decided like the model decides it, both on the chain and on the wire (status 44)"""
+    WRITTEN capacity / refill_rate / retry_after (zero and other boundary values included; an absent key means the
+    documented default 10 / 1.0 / 30), its clean-up task is started, and a short history of requests from a few
+    addresses under the virtual clock is decided like the model decides it for the written values, both when the chain
+    is asked directly and on the wire (status 44).  The direct oracle is the limiter oracle under the written values."""
 
     name = "wiring"
     quick_n = 1200
@@ -352,19 +379,43 @@ class Wiring(Family):
         self.W, self.clock = mw_wiring, mw_clock
         self.capture = mw_wiring.Capture()
 
+    FIXED = [
+        {"enabled": None, "cap": None, "rate": None, "retry": None, "evs": [[1, 0]] * 12 + [[2, 0]]},
+        {"enabled": False, "cap": 1, "rate": [1, 8], "retry": 5, "evs": [[1, 0], [1, 0], [1, 0]]},
+        # zero is a value, not "unset": a fixed quota that never refills, a limiter that admits nobody, a zero hint
+        {"enabled": True, "cap": 2, "rate": [0, 1], "retry": 30, "evs": [[1, 0], [1, 0], [1, 0], [1, 80], [1, 8000], [2, 8000]]},
+        {"enabled": None, "cap": 0, "rate": [1, 1], "retry": 7, "evs": [[1, 0], [2, 8], [1, 800]]},
+        {"enabled": None, "cap": 1, "rate": [1, 8], "retry": 0, "evs": [[1, 0], [1, 0], [1, 63], [1, 64]], "ipset": 1},
+        {"enabled": True, "cap": 0, "rate": [0, 1], "retry": 0, "evs": [[1, 0], [1, 8000]], "float_rate": True},
+    ]
+
     def gen(self, rng, n):
-        yield {"enabled": None, "cap": None, "rate": None, "retry": None, "burst": [1] * 12 + [2]}
-        yield {"enabled": False, "cap": 1, "rate": [1, 8], "retry": 5, "burst": [1, 1, 1]}
-        for _ in range(n - 2):
-            cap = rng.choice((None, 1, 2, 3, 5, 10))
-            rate = rng.choice((None, [1, 8], [1, 1024], [1, 2], [1, 1], [2, 1]))
-            burst = [rng.choice((1, 1, 1, 2)) for _ in range(rng.randint(1, (cap or 10) + 4))]
+        k = 0
+        for c in self.share(self.FIXED):
+            k += 1
+            yield dict(c)
+        while k < n:
+            k += 1
+            cap = rng.choice((None, 0, 1, 1, 2, 3, 5, 10))
+            rate = rng.choice((None, [0, 1], [0, 1], [1, 8], [1, 1024], [1, 2], [1, 1], [2, 1]))
+            eff_cap = 10 if cap is None else cap
+            one = 8 if rate is None else (8 * rate[1] // rate[0] if rate[0] and (8 * rate[1]) % rate[0] == 0 else 8)
+            t, evs = 0, []
+            for _ in range(rng.randint(1, eff_cap + 5)):
+                t += rng.choice((0, 0, 0, 1, 8, one - 1 if one > 1 else 0, one, 16, 80, 2400))
+                evs.append([rng.choice((1, 1, 1, 2)), t])
             r = rng.random()
             yield {"enabled": None if r < 0.5 else True if r < 0.9 else False, "cap": cap, "rate": rate,
-                   "retry": rng.choice((None, 30, 1, 600)), "burst": burst, "float_rate": rng.random() < 0.5}
+                   "retry": rng.choice((None, 30, 1, 0, 0, 600)), "evs": evs, "float_rate": rng.random() < 0.5,
+                   "ipset": rng.randrange(len(IPSETS))}
 
     def eff(self, case):
+        """the configured values: what is written, the documented default where the key is absent"""
         return (10 if case["cap"] is None else case["cap"], [1, 1] if case["rate"] is None else case["rate"], 30 if case["retry"] is None else case["retry"])
+
+    def written(self, case):
+        c, r, retry = self.eff(case)
+        return {"cap": c, "rate": r, "retry": retry, "evs": case["evs"]}
 
     def toml_text(self, case):
         lines = ["[rate_limit]"]
@@ -394,12 +445,13 @@ class Wiring(Family):
                 cap["config"] = [rl.config.capacity, float(rl.config.refill_rate), rl.config.retry_after]
                 cap["cleanup_started"] = rl._cleanup_task is not None and not rl._cleanup_task.done()
             res = []
-            for k, a in enumerate(case["burst"]):
+            for k, (a, t8) in enumerate(case["evs"]):
+                now[0] = 1000.0 + t8 / 8
                 if k % 2 == 0 and chain is not None:
-                    ok, line = await chain.process_request(URLS[k % 3], IPS[a], None)
+                    ok, line = await chain.process_request(URLS[k % 3], ip_text(case, a), None)
                     res.append([True] if ok else [False, line])
                 else:
-                    st = await self.W.wire_status(factory, IPS[a])
+                    st = await self.W.wire_status(factory, ip_text(case, a))
                     res.append([True] if st != "44" else [False, "wire44"])
             cap["res"] = res
 
@@ -415,7 +467,7 @@ class Wiring(Family):
         if case["enabled"] is False:
             return None
         c, r, retry = self.eff(case)
-        return f"bucket {c} {rat(*r)} 600 {retry} " + " ".join(f"{a}@1000" for a in case["burst"])
+        return f"bucket {c} {rat(*r)} 600 {retry} " + " ".join(f"{a}@{rat(8000 + t8, 8)}" for a, t8 in case["evs"])
 
     def expect(self, case, out):
         assert out.startswith("ok "), out
@@ -432,26 +484,21 @@ class Wiring(Family):
             if "0" in obs["dec"]:
                 return ("limited-while-disabled", f"rate limiting disabled but decisions {obs['dec']}")
             return None
-        c, r, retry = self.eff(case)
-        # frozen instant: per address at most `capacity` admissions, refusals only after `capacity` admissions
-        seen: dict = {}
-        for a, d in zip(case["burst"], obs["dec"]):
-            k = seen.get(a, 0)
-            if d == "1" and k >= c:
-                return ("window", f"address {a}: more than capacity={c} requests admitted at one instant ({obs['dec']} for burst {case['burst']})")
-            if d == "0" and k < c:
-                return ("refuse-with-allowance", f"address {a}: refused after only {k} admissions with capacity={c} written in the TOML file ({obs['dec']} for burst {case['burst']})")
-            if d == "1":
-                seen[a] = k + 1
-        for l in obs["lines"]:
-            if not is_44(l, retry):
-                return ("bad-44-line", f"refusal line {l!r} does not carry status 44 and retry_after={retry}")
+        w = self.written(case)
+        o = {"dec": obs["dec"], "lines": obs["lines"] or (["wire44"] if "0" in obs["dec"] else [])}
+        if o["lines"] == ["wire44"]:
+            o["lines"] = [f"44 (on the wire) {w['retry']}\r\n"]   # refusals seen only as status 44 on the wire carry no line to inspect
+        v = limiter_oracle(w, o)
+        if v:
+            return (v[0], f"[rate_limit] as written: capacity={w['cap']} refill_rate={F(*w['rate'])} retry_after={w['retry']} ({self.toml_text(case).strip()!r}): {v[1]}")
         return None
 
     def key(self, case, obs):
         en = case["enabled"]
         d = obs.get("dec", "")
-        return f"en={'absent' if en is None else int(en)}:cap={'dflt' if case['cap'] is None else 'set'}:rate={'dflt' if case['rate'] is None else 'set'}:" \
+        z = "+".join(n for n, v in (("cap0", case["cap"] == 0), ("rate0", case["rate"] is not None and case["rate"][0] == 0), ("retry0", case["retry"] == 0)) if v) or "nonzero"
+        dflt = "some-key-absent" if None in (case["cap"], case["rate"], case["retry"]) else "all-written"
+        return f"{'off' if en is False else 'on'}:{z}:{dflt}:" \
                f"{'mixed' if '0' in d and '1' in d else 'all-admit' if '1' in d else 'all-refuse'}"
 
 
